@@ -53,6 +53,8 @@ def _expand(payload, sub):
         k = rng.randrange(1, 5)
         cols = sorted(rng.sample(COLS, k), key=lambda c: c[0])
         srcs.append({'cols': [list(c) for c in cols], 'null_col': rng.random() < 0.3, 'kind': rng.choice(['iterable', 'iterable', 'load_tuple', 'package'])})
+        if srcs[-1]['kind'] == 'load_tuple' and rng.random() < 0.4:
+            srcs[-1]['limit_rows'] = rng.choice([20, 1000, payload['N'] // 4])
     bases, b = [], 0
     for s in srcs:
         bases.append(b)
@@ -178,7 +180,11 @@ def _run(payload, sub):
             desc = {'resources': [{'name': 'res_%d' % (j + 1), 'path': 'res_%d.csv' % (j + 1), 'profile': 'tabular-data-resource',
                                    'schema': {'fields': [{'name': '_id', 'type': 'integer'}] + [{'name': c, 'type': t} for c, t in spec['cols']] +
                                               ([{'name': 'z9', 'type': 'any'}] if spec.get('null_col') else [])}}]}
-            links.append(DF.load((desc, [gen(j, spec)])))
+            if spec.get('limit_rows'):
+                # load(..., limit_rows=k): k rows are delivered, and the rest of the source is not read to the end
+                links.append(DF.load((desc, [gen(j, spec)]), limit_rows=spec['limit_rows']))
+            else:
+                links.append(DF.load((desc, [gen(j, spec)])))
     for sp in sc['steps']:
         links.extend(ST.build(sp, env))
 
@@ -190,6 +196,10 @@ def _run(payload, sub):
                     refresh()
                 j = rid // N
                 consumed = rid + 1            # all rows of sources < j, plus (rid - j*N + 1) rows of source j
+                for jj in range(j):
+                    lim = sc['sources'][jj].get('limit_rows')
+                    if lim:
+                        consumed -= N - min(N, lim)      # a limited source only ever hands over its first k rows
                 tot = 0
                 for x in pulled:
                     tot += x
@@ -262,7 +272,7 @@ class C06(Prop):
                    'look-ahead is only defined at deliveries: a pipeline whose filter drops every row cannot refute the property']
     REAL_VS_STUB = {'real': ['all dataflows code of the pipeline, tabulator/tableschema iteration'], 'stub': ['counting generator sources', 'recording rows-function sink']}
     PROBES = ['unpivot-in-pipeline', 'concatenate-in-pipeline', 'dumper-in-pipeline', 'checkpoint-in-pipeline', 'filter-in-pipeline', 'null-column-source', 'load-tuple-source',
-              'multi-source', 'sample-size-knob', 'N=100000', 'consumer-stops-early', 'run-fails-mid-stream', 'second-run-into-the-same-directory', 'data-package-on-disk-source', 'excel-dumper-in-pipeline']
+              'multi-source', 'sample-size-knob', 'N=100000', 'consumer-stops-early', 'run-fails-mid-stream', 'second-run-into-the-same-directory', 'data-package-on-disk-source', 'excel-dumper-in-pipeline', 'load-with-limit-rows']
     TIERS = {'quick': dict(runs=400, wall=110, run_wall=200),
              'thorough': dict(runs=6000, wall=1700, run_wall=900)}
     SHRINK_FROZEN = ('cols', 'gen_stats')
@@ -332,6 +342,12 @@ class C06(Prop):
         if v['maxL'] > bound:
             ctx.violation('lookahead:bound', 'exceeded', 'max look-ahead %d rows exceeds the bound %d (= inference samples + %d) at delivery of row id %r with pulls %r; N=%d per source; steps=%s' % (
                 v['maxL'], bound, C_SLACK, v['at'][0], v['at'][1], N, json.dumps(sc['steps'])[:700]), maxL=v['maxL'], N=N)
+        for j, sp_ in enumerate(sc['sources']):
+            if sp_.get('limit_rows'):
+                ctx.probe('load-with-limit-rows')
+                if v['pulled'][j] > sp_['limit_rows'] + C_SLACK:
+                    ctx.violation('lookahead:bound', 'beyond-limit', 'load(limit_rows=%d) delivered its rows but %d rows of that source were read (N=%d); steps=%s' % (
+                        sp_['limit_rows'], v['pulled'][j], N, json.dumps(sc['steps'])[:500]), N=N)
         if v['early'] > C_SLACK:
             ctx.violation('next-source-pulled-early', 'exceeded', '%d rows of a later source were pulled (beyond its inference sample) while an earlier source was still being delivered (row id %r, pulls %r); steps=%s' % (
                 v['early'], v['early_at'][0], v['early_at'][1], json.dumps(sc['steps'])[:700]), early=v['early'], N=N)
